@@ -15,7 +15,7 @@ EXPLANATION = (
     'evaluated: it returns the list the store actor produced for the requested document. (R6) the file-format migration '
     'that runs on open for stores written by iroh-docs 0.94..=0.98 (migrate_redb_v2_tuples::run), evaluated on an old file '
     'holding one row per table, carries the useful-peer table (a multimap table: it has to be looked for with '
-    'list_multimap_tables). NOT decided: wall-clock monotonicity, tables that already violate the invariant (more than 5 '
+    'list_multimap_tables). (R7) the store actor forwards RegisterUsefulPeer / GetSyncPeers one to one (the store-actor handler evaluated with the fields of the request as named tokens and gates / store / replica calls answered by an oracle, each step also failing in turn: the own fields of the request reach the core function in order on the addressed document, nothing is carried out after a failed step, the reply is the result of that function; the SyncHandle method evaluated: one request of its own kind, addressed to its namespace argument, each field one of its own parameters, the reply of the actor returned). NOT decided: wall-clock monotonicity, tables that already violate the invariant (more than 5 '
     'rows, two rows of one peer).'
 )
 ASSUMPTIONS = ["redb multimap value order = tuple order (timestamp first)", "SystemTime is monotone enough (not decided)"]
@@ -294,6 +294,12 @@ def r6(ctx):
     ctx.floor("C17.R6", 1)
 
 
+def r7(ctx):
+    """useful peers through the asynchronous handle: the request's peer is registered for the addressed document"""
+    from . import actorfw
+    actorfw.claim(ctx, "C17.R7", handlers=("RegisterUsefulPeer", "GetSyncPeers"), clients=("register_useful_peer", "get_sync_peers"), floor=7)
+
+
 def run(ctx):
     ctx.run_rule("C17.R1", r1)
     ctx.run_rule("C17.R2", r2)
@@ -301,3 +307,4 @@ def run(ctx):
     ctx.run_rule("C17.R4", r4)
     ctx.run_rule("C17.R5", r5)
     ctx.run_rule("C17.R6", r6)
+    ctx.run_rule("C17.R7", r7)
